@@ -92,7 +92,8 @@ elab "tie_field" : tactic => do
     evalTactic (← `(tactic| first | decide | (intros; rfl)))
   catch _ =>
     let g ← getMainGoal
-    throwError "tie to the Go source broken (a regenerated fact of Juniper.Gen.Par / ParSync / SkeletonPar is not what the model and its proofs assume): {← g.getType}"
+    let stmt := (← Lean.Meta.ppExpr (← g.getType)).pretty 100000
+    throwError "tie broken: {stmt} -- a fact regenerated from the Go source (Juniper.Gen.Par / ParSync / SkeletonPar) is not what the model and its proofs assume"
 
 /-- Proof of `IterTies` from the regenerated definitions, to be used **inside** a property theorem
 (`iter_code_sound iter_ties`): each field of `Iter.Code.Sound` by `decide` (Boolean facts, among them
